@@ -187,8 +187,9 @@ def judge_c03(t, ex, witness, extra):
     t.violation("C03: " + why, forest.case_of(ex, witness, why))
 
 
-def _snap_checks(ex):
-    """Oracle B: monitor law over the snapshots taken at hook entry."""
+def _snap_checks(ex, reentrant=False):
+    """Oracle B: monitor law over the snapshots taken at hook entry.  With hooks that change the forest themselves
+    (reentrant) only what the four per-node hooks observe is judged: the nesting makes the other laws meaningless."""
     labels = ex.labels
     ix = {l: i for i, l in enumerate(labels)}
     pre = _pad(ex.pre, ex)
@@ -200,7 +201,7 @@ def _snap_checks(ex):
 
     seq = [("<call>", None, None, pre)] + [(r[0], r[1], r[2], trim(r[3])) for r in ex.log] + [("<return>", None, None, ex.post)]
     faulted = set(ex.faults)
-    for i in range(len(seq) - 1):
+    for i in range(len(seq) - 1) if not reentrant else ():
         a, b = seq[i], seq[i + 1]
         sa, sb = a[3], b[3]
         if sa == sb:
@@ -229,6 +230,8 @@ def _snap_checks(ex):
         elif hook == "_post_attach":
             if s[ix[n]][0] != p or not s[ix[p]][1] or s[ix[p]][1][-1] != n:
                 return "_post_attach(%s) does not see %s as the last child of %s" % (n, n, p)
+        elif reentrant:
+            continue
         elif hook == "_pre_detach_children":
             if tuple(s[ix[n]][1]) != tuple(p):
                 return "_pre_detach_children(%s) is not given the children %s still has" % (n, n)
@@ -248,7 +251,12 @@ def _snap_checks(ex):
 def judge_c16(t, ex, witness, extra):
     labels = _labels_pre(ex)
     log3 = [tuple(r[:3]) for r in ex.log]
-    if not ex.faults:
+    reentrant = bool(ex.raise_at and ex.raise_at[0] == "reenter")
+    if reentrant:
+        # a hook that detaches another node itself: the exact sequence is not specified, but what every hook call - nested or
+        # not - observes is (a detach hook only for a node that still has that parent, exactly one link step per bracket)
+        t.c["reentrant_monitor_runs"] += 1
+    elif not ex.faults:
         want, st, log = models.spec_apply(ex.pre, labels, ex.op, _nodemixin_of(ex))
         if log is not None and want != models.UNDEFINED:
             t.c["exact_logs_compared"] += 1
@@ -278,7 +286,7 @@ def judge_c16(t, ex, witness, extra):
                 t.violation("C16: " + why, c)
                 return
     if ex.log and len(ex.log[0]) > 3:
-        why = _snap_checks(ex)
+        why = _snap_checks(ex, reentrant)
         t.c["monitor_runs"] += 1
         if why is not None:
             t.violation("C16: " + why, forest.case_of(ex, witness, why))
